@@ -572,9 +572,14 @@ func C19(tier string) int {
 		"QuoInteger, Rem, NumDecimalPlaces, Reduce and the empty string are not constrained by the statement: behaviour is recorded, only operand immutability and panics are judged",
 		"operand immutability is judged on the internal representation (form, sign, exponent, every word of the coefficient array up to its capacity, identity of the array) and on String(), after each operation and again after Add/Mul/Reduce/BigInt/SdkIntTrim/String were applied to the returned result and returned integers were overwritten in place",
 		"math.Dec internals are read through a layout mirror of apd.Decimal verified by reflection at start-up",
+		"history independence: a probe set (14 binary operations x all ordered pairs of 25 probe literals) is evaluated at process start and must be bit-identical after each of the earlier-operation kinds (every constructor, unary operation, conversion and binary operation applied to all probe literals) and after the whole enumeration; this decides operation sequences of length two at the level of operation kinds, not longer ones",
 	}
 	lits := c19Literals(tier)
 	col := newC19Collector()
+
+	// 0. history independence: baseline of the probe set before anything else, then every
+	// (earlier operation kind, probe) sequence
+	probe, hs := c19HistoryStart(col)
 
 	// 1. single literals
 	ls := c19CheckLiterals(lits, col)
@@ -636,6 +641,7 @@ func C19(tier string) int {
 		depth = 3
 	}
 	as := c19AliasExplore(depth, col)
+	probe.compare("the whole pair enumeration and aliasing exploration", col, hs)
 
 	// evidence
 	perOp := map[string]c19OpStat{}
@@ -648,7 +654,7 @@ func C19(tier string) int {
 			samples = append(samples, s)
 		}
 	}
-	o.Coverage["evaluations"] = ls.Evaluations + ps.evals + as.Steps
+	o.Coverage["evaluations"] = ls.Evaluations + ps.evals + as.Steps + hs.Comparisons
 	o.Coverage["distinct_nontrivial"] = ps.nontrivial
 	o.Coverage["rule"] = "family D = sign x coefficient x exponent literals in scientific and plain notation (deduplicated by spelling) plus unusual spellings; every literal is checked alone (parse value, rendering, sign predicates, BigInt, SdkIntTrim, restricted constructors); every ORDERED pair of accepted literals is evaluated under each of the 14 binary operations; an evaluation is distinct by (operation, spelling of x, spelling of y) and non-trivial iff it returned a nil error and the exact result the statement defines for it (sum, difference, product, quotient) is non-zero (QuoInteger, Rem, Cmp, Equal never count); the aliasing exploration adds every operation sequence up to the stated depth over a growing pool of values"
 	o.Coverage["samples"] = samples
@@ -662,6 +668,7 @@ func C19(tier string) int {
 	o.Coverage["results_sharing_memory_with_operand"] = ps.shared
 	o.Coverage["writes_into_spare_capacity_of_operand"] = ps.spareWrites
 	o.Coverage["alias_exploration"] = as
+	o.Coverage["history_independence"] = hs
 	o.Coverage["violation_counts_by_kind"] = col.counts
 	o.Coverage["workers"] = nw
 
